@@ -758,7 +758,10 @@ var spec = run.Spec[Case]{ID: "C13", Name: "hull", Gen: genCase, Prop: prop, Cla
 
 func TestPropHull(t *testing.T) { run.Generated(t, spec) }
 func TestRegress(t *testing.T)  { run.Regress(t, spec) }
-func TestReplay(t *testing.T)   { run.ReplayOne(t, spec) }
+func TestReplay(t *testing.T) {
+	run.ReplayOne(t, spec)
+	run.ReplayOne(t, bigSpec)
+}
 
 // TestExhaustive3x3 enumerates every ordered list of 1..5 points of the 3x3
 // grid (66 429 inputs), alternating layouts and entry points.
